@@ -27,6 +27,7 @@ type sink struct {
 	Callee string // arg: callee name
 	ArgIdx int
 	Notes  []string // how the value got here (conv, arith, elem, len, call:f)
+	Seed   ssa.Instruction // the field read the value comes from
 }
 
 func (s sink) String() string {
@@ -111,6 +112,11 @@ func (r *Run) callersOf(fn *ssa.Function) []*ssa.Call {
 // protocolSinks computes the sinks of every protocol parameter read.
 func (r *Run) protocolSinks() (map[string][]sink, int) {
 	_, fields := r.protocolStruct()
+	return r.fieldSinks(fields)
+}
+
+// fieldSinks computes the sinks of every read of the given struct fields.
+func (r *Run) fieldSinks(fields map[*types.Var]string) (map[string][]sink, int) {
 	out := map[string][]sink{}
 	reads := 0
 	if fields == nil {
@@ -168,7 +174,7 @@ func (r *Run) protocolSinks() (map[string][]sink, int) {
 							work = append(work, flowItem{v: v, depth: it.depth, notes: n})
 						}
 						mk := func(kind string) sink {
-							return sink{Field: name, Kind: kind, Fn: fn, Instr: ref, Notes: it.notes}
+							return sink{Field: name, Kind: kind, Fn: fn, Instr: ref, Notes: it.notes, Seed: ins}
 						}
 						switch x := ref.(type) {
 						case *ssa.UnOp:
@@ -331,7 +337,7 @@ func (r *Run) protocolSinks() (map[string][]sink, int) {
 		var d []sink
 		seen := map[string]bool{}
 		for _, s := range ss {
-			key := fmt.Sprintf("%p|%s", s.Instr, s.Kind)
+			key := fmt.Sprintf("%p|%s|%p", s.Instr, s.Kind, s.Seed)
 			if seen[key] {
 				continue
 			}
